@@ -254,6 +254,9 @@ def new_socket_connection(
         source_address: Optional[HostPort] = None,
 ) -> socket.socket:
     conn = None
+    # Request targets carry IPv6 literals in brackets, sockets don't.
+    if addr[0].startswith('[') and addr[0].endswith(']'):
+        addr = (addr[0][1:-1], addr[1])
     try:
         ip = ipaddress.ip_address(addr[0])
         if ip.version == 4:
